@@ -1,12 +1,13 @@
-(** C17: when does [conjoin_hrgs] return?  The unmodified code raises on two classes of inputs
-    that have no terminal-label conflict (witnesses [*_refuted]); outside them ([ids_ok]) and
-    without a terminal conflict it returns a grammar ([conjoin_hrgs_total]). *)
+(** C17: when does [conjoin_hrgs] return?  Always, unless two terminal labels conflict
+    ([conjoin_hrgs_total]).  Before /repo commit 00f91d1 the code raised on two further classes of
+    inputs; the witnesses are kept, about the explicitly named old definitions of Model/ConjOld.v
+    ([*_refuted_old]). *)
 From Coq Require Import List Arith Bool PeanoNat Lia Permutation Sorted.
 Import ListNotations.
-Require Import Fggs.Model.Conj Fggs.Proofs.ConjBase Fggs.Proofs.ConjNames Fggs.Proofs.ConjSort
-               Fggs.Proofs.ConjRule Fggs.Proofs.ConjHrg Fggs.Proofs.ConjBij.
+Require Import Fggs.Model.Conj Fggs.Model.ConjOld Fggs.Proofs.ConjBase Fggs.Proofs.ConjNames
+               Fggs.Proofs.ConjSort Fggs.Proofs.ConjRule Fggs.Proofs.ConjHrg Fggs.Proofs.ConjBij.
 
-(** * witnesses of the two defect classes *)
+(** * witnesses of the two defect classes of the old code *)
 Definition lS : elabel := {| el_name := [83]; el_type := []; el_term := false |}.
 Definition lt : elabel := {| el_name := [116]; el_type := [0]; el_term := true |}.
 Definition nd0 : node := {| n_id := 1; n_lab := 0 |}.
@@ -26,19 +27,24 @@ Definition ex_d2 : hrg :=
                                       g_ext := [] |} |};
                        {| r_lhs := lS; r_rhs := {| g_nodes := []; g_edges := []; g_ext := [] |} |}])] |}.
 
-(** conjoining a grammar that has a terminal edge with itself: ValueError, no label conflict *)
-Theorem shared_terminal_id_refuted :
+(** the old code, conjoining a grammar that has a terminal edge with itself: ValueError without
+    any label conflict; the current code returns *)
+Theorem shared_terminal_id_refuted_old :
   exists h1 h2, wf_hrg_b h1 = true /\ wf_hrg_b h2 = true /\ has_tt_conflict h1 h2 = false /\
-                defect_shared_terminal_id h1 h2 = true /\ conjoin_hrgs_model h1 h2 = Err ValueErr.
-Proof. exists ex_d1, ex_d1. vm_compute. auto. Qed.
+                defect_shared_terminal_id_old h1 h2 = true /\
+                conjoin_hrgs_model_old h1 h2 = Err ValueErr /\
+                exists g, conjoin_hrgs_model h1 h2 = Ok g.
+Proof. exists ex_d1, ex_d1. vm_compute. repeat split; eauto. Qed.
 
-(** conjoining grammars that share a nonterminal edge with an implicit id: TypeError *)
-Theorem int_nt_id_refuted :
+(** the old code on grammars that share a nonterminal edge with an implicit id: TypeError *)
+Theorem int_nt_id_refuted_old :
   exists h1 h2, wf_hrg_b h1 = true /\ wf_hrg_b h2 = true /\ has_tt_conflict h1 h2 = false /\
-                defect_int_nt_id h1 h2 = true /\ conjoin_hrgs_model h1 h2 = Err TypeErr.
-Proof. exists ex_d2, ex_d2. vm_compute. auto. Qed.
+                defect_int_nt_id_old h1 h2 = true /\
+                conjoin_hrgs_model_old h1 h2 = Err TypeErr /\
+                exists g, conjoin_hrgs_model h1 h2 = Ok g.
+Proof. exists ex_d2, ex_d2. vm_compute. repeat split; eauto. Qed.
 
-(** * the graph builder never fails on fresh ids *)
+(** * the graph builder never fails on nodes that are present and on fresh ids *)
 Lemma hid_app : forall l1 l2 i, hid (l1 ++ l2) i = hid l1 i || hid l2 i.
 Proof. intros. unfold hid. apply existsb_app. Qed.
 Lemma heid_app : forall l1 l2 i, heid (l1 ++ l2) i = heid l1 i || heid l2 i.
@@ -58,28 +64,30 @@ Proof.
 Qed.
 
 Lemma set_ext_present : forall g ns,
-  (forall n, In n ns -> hid (g_nodes g) (n_id n) = true) ->
+  NoDup (map n_id (g_nodes g)) -> (forall n, In n ns -> In n (g_nodes g)) ->
   set_ext g ns = Ok {| g_nodes := g_nodes g; g_edges := g_edges g; g_ext := ns |}.
-Proof. intros g ns P. unfold set_ext. rewrite (add_missing_present ns g P). reflexivity. Qed.
+Proof. intros g ns N P. unfold set_ext. rewrite (add_new_nodes_present g ns N P). reflexivity. Qed.
 
 Lemma add_edge_present : forall g e,
   heid (g_edges g) (e_id e) = false ->
-  (forall n, In n (e_att e) -> hid (g_nodes g) (n_id n) = true) ->
+  NoDup (map n_id (g_nodes g)) -> (forall n, In n (e_att e) -> In n (g_nodes g)) ->
   add_edge g e = Ok {| g_nodes := g_nodes g; g_edges := g_edges g ++ [e]; g_ext := g_ext g |}.
 Proof.
-  intros g e H P. unfold add_edge, has_edge_id. fold (heid (g_edges g) (e_id e)). rewrite H.
-  rewrite (add_missing_present _ g P). reflexivity.
+  intros g e H N P. unfold add_edge, has_edge_id. fold (heid (g_edges g) (e_id e)). rewrite H.
+  rewrite (add_new_nodes_present g _ N P). reflexivity.
 Qed.
 
 Lemma add_edges_total : forall es g,
-  (forall e n, In e es -> In n (e_att e) -> hid (g_nodes g) (n_id n) = true) ->
+  NoDup (map n_id (g_nodes g)) ->
+  (forall e n, In e es -> In n (e_att e) -> In n (g_nodes g)) ->
   NoDup (map e_id es) -> (forall e, In e es -> heid (g_edges g) (e_id e) = false) ->
   exists g', mfold add_edge es g = Ok g'.
 Proof.
-  induction es as [|e es IH]; simpl; intros g P N F; [eauto|].
+  induction es as [|e es IH]; simpl; intros g NN P N F; [eauto|].
   inversion N as [|? ? N1 N2]; subst.
-  rewrite (add_edge_present g e (F e (or_introl eq_refl)) (fun n Hn => P e n (or_introl eq_refl) Hn)).
+  rewrite (add_edge_present g e (F e (or_introl eq_refl)) NN (fun n Hn => P e n (or_introl eq_refl) Hn)).
   apply IH; simpl.
+  - exact NN.
   - intros e' n He Hn. apply (P e' n); auto.
   - exact N2.
   - intros e' He. rewrite heid_app, (F e' (or_intror He)). simpl.
@@ -87,30 +95,55 @@ Proof.
     apply Nat.eqb_eq in E. exfalso. apply N1. rewrite E. apply in_map. exact He.
 Qed.
 
-Lemma conj_nt_edges_total : forall m ps g,
-  (forall p n, In p ps -> In n (e_att (fst p)) -> hid (g_nodes g) (n_id n) = true) ->
+Lemma conj_nt_edges_total : forall m base ps g,
+  NoDup (map n_id (g_nodes g)) ->
+  (forall p n, In p ps -> In n (e_att (fst p)) -> In n (g_nodes g)) ->
   (forall p, In p ps -> exists l, nt_get m (e_lab (fst p), e_lab (snd p)) = Some l /\
                                   el_type l = map n_lab (e_att (fst p))) ->
-  (forall p, In p ps -> is_int_id (e_id (fst p)) = false) ->
   NoDup (map (fun p => e_id (fst p)) ps) ->
-  (forall p, In p ps -> heid (g_edges g) (e_id (fst p)) = false) ->
-  exists g', mfold (conj_nt_edge m) ps g = Ok g'.
+  (forall p, In p ps -> is_int_id (e_id (fst p)) = false -> heid (g_edges g) (e_id (fst p)) = false) ->
+  exists g', mfold (conj_nt_edge m base) ps g = Ok g'.
 Proof.
-  induction ps as [|p ps IH]; simpl; intros g P L I N F; [eauto|].
+  induction ps as [|p ps IH]; simpl; intros g NN P L N F; [eauto|].
   inversion N as [|? ? N1 N2]; subst.
   destruct (L p (or_introl eq_refl)) as [l [G Ty]].
-  unfold conj_nt_edge at 1. rewrite G. unfold mk_edge. rewrite (I p (or_introl eq_refl)).
+  unfold conj_nt_edge at 1. rewrite G. unfold mk_edge.
   rewrite (proj2 (nats_eqb_eq _ _) Ty). simpl.
-  rewrite add_edge_present; simpl; [| apply (F p); auto | intros n Hn; apply (P p n); auto].
+  set (i := if is_int_id (e_id (fst p)) then fresh_eid base g else e_id (fst p)).
+  assert (Hi : heid (g_edges g) i = false).
+  { unfold i. destruct (is_int_id (e_id (fst p))) eqn:I.
+    - rewrite fresh_eid_of. apply fresh_not_in.
+    - apply (F p); auto. }
+  rewrite add_edge_present; simpl; [|exact Hi|exact NN|intros n Hn; apply (P p n); auto].
   apply IH; simpl.
+  - exact NN.
   - intros q n Hq Hn. apply (P q n); auto.
   - intros q Hq. apply L. auto.
-  - intros q Hq. apply I. auto.
   - exact N2.
-  - intros q Hq. rewrite heid_app, (F q (or_intror Hq)). simpl.
-    destruct (Nat.eqb (e_id (fst p)) (e_id (fst q))) eqn:E; [|reflexivity].
-    apply Nat.eqb_eq in E. exfalso. apply N1. rewrite E.
-    apply (in_map (fun p => e_id (fst p))). exact Hq.
+  - intros q Hq Iq. rewrite heid_app, (F q (or_intror Hq) Iq). simpl.
+    destruct (Nat.eqb i (e_id (fst q))) eqn:E; [|reflexivity].
+    apply Nat.eqb_eq in E. exfalso. unfold i in E. destruct (is_int_id (e_id (fst p))) eqn:I.
+    + pose proof (fresh_of_even base (g_edges g)) as Ev. rewrite <- fresh_eid_of, E in Ev. congruence.
+    + apply N1. rewrite E. apply (in_map (fun p => e_id (fst p))). exact Hq.
+Qed.
+
+Lemma add_t2_edges_total : forall base es g,
+  NoDup (map n_id (g_nodes g)) ->
+  (forall e n, In e es -> In n (e_att e) -> In n (g_nodes g)) ->
+  (forall e, In e es -> el_type (e_lab e) = map n_lab (e_att e)) ->
+  exists g', mfold (add_t2_edge base) es g = Ok g'.
+Proof.
+  induction es as [|e es IH]; simpl; intros g NN P T; [eauto|].
+  assert (X : exists g1, add_t2_edge base g e = Ok g1 /\ g_nodes g1 = g_nodes g).
+  { unfold add_t2_edge. destruct (has_edge_id g (e_id e)) eqn:H.
+    - unfold mk_edge. rewrite (proj2 (nats_eqb_eq _ _) (T e (or_introl eq_refl))). simpl.
+      rewrite add_edge_present; simpl; [eauto| |exact NN|intros n Hn; apply (P e n); auto].
+      rewrite fresh_eid_of. apply fresh_not_in.
+    - rewrite add_edge_present; [eauto|exact H|exact NN|intros n Hn; apply (P e n); auto]. }
+  destruct X as [g1 [E EN]]. rewrite E. apply IH.
+  - rewrite EN. exact NN.
+  - intros e' n He Hn. rewrite EN. apply (P e' n); auto.
+  - intros e' He. apply T. auto.
 Qed.
 
 Lemma existsb_false_forall {A} (f : A -> bool) : forall l,
@@ -130,115 +163,107 @@ Proof.
   rewrite (NoDup_map_inj_in e_id l a b N Ha Hb E). reflexivity.
 Qed.
 
-(** * [conjoin_rules] returns on conjoinable rules outside the two defect classes *)
-Theorem conjoin_rules_total : forall r1 r2 m,
+(** * [conjoin_rules] returns on conjoinable rules *)
+Lemma built_ids_base : forall m base pre ps es, built m base pre ps es ->
+  forall e', In e' es -> exists p', In p' ps /\
+    (is_int_id (e_id (fst p')) = true -> base < e_id e') /\
+    (is_int_id (e_id (fst p')) = false -> e_id e' = e_id (fst p')).
+Proof.
+  induction 1 as [|pre p ps e es H B IH]; intros e' He'; [contradiction|].
+  destruct He' as [<-|He'].
+  - exists p. split; [left; reflexivity|]. unfold new_nt_edge in H.
+    destruct (nt_get m (e_lab (fst p), e_lab (snd p))); [|discriminate]. injection H as <-. simpl.
+    split; intros I; rewrite I; [apply fresh_of_gt_base | reflexivity].
+  - destruct (IH e' He') as [p' [Hp' AB]]. exists p'. split; [right; exact Hp' | exact AB].
+Qed.
+
+Theorem conjoin_rules_total : forall base r1 r2 m,
   wf_rule r1 -> wf_rule r2 -> conjoinable_model r1 r2 = true ->
   (exists L, nt_get m (r_lhs r1, r_lhs r2) = Some L /\ el_term L = false /\
              el_type L = el_type (r_lhs r1)) ->
   (forall e1 e2, In e1 (nt_edges (r_rhs r1)) -> In e2 (nt_edges (r_rhs r2)) ->
      exists l, nt_get m (e_lab e1, e_lab e2) = Some l /\ el_type l = el_type (e_lab e1)) ->
-  (forall e, In e (nt_edges (r_rhs r1)) -> is_int_id (e_id e) = false) ->
-  shares_terminal_id r1 r2 = false ->
-  exists r, conjoin_rules_model r1 r2 m = Ok r.
+  (forall e, In e (t_edges (r_rhs r1)) -> e_id e <= base) ->
+  exists r, conjoin_rules_model base r1 r2 m = Ok r.
 Proof.
-  intros r1 r2 m W1 W2 C [L [GL [TL TyL]]] ML NI ST.
+  intros base r1 r2 m W1 W2 C [L [GL [TL TyL]]] ML BD.
   pose proof W1 as [W1a W1b [W1n W1e W1x W1t W1y]]. pose proof W2 as [W2a W2b [W2n W2e W2x W2t W2y]].
   pose proof (proj1 (conjoinable_spec _ _) C) as [Cn [Cs Cx]].
-  assert (P : forall n, In n (g_nodes (r_rhs r1)) -> hid (g_nodes (r_rhs r1)) (n_id n) = true)
-    by (intros; apply hid_in; assumption).
   assert (N1 : NoDup (map e_id (nt_edges (r_rhs r1)))) by (apply NoDup_map_filter; exact W1e).
-  assert (N2 : NoDup (map e_id (nt_edges (r_rhs r2)))) by (apply NoDup_map_filter; exact W2e).
-  assert (AL : map sigf (nt_sorted r1) = map sigf (nt_sorted r2)).
-  { unfold nt_sorted. apply sorted_sigs_eq; [exact N1 | exact N2 | exact Cs]. }
-  assert (LEN : length (nt_sorted r1) = length (nt_sorted r2)).
-  { apply (f_equal (@length _)) in AL. rewrite !map_length in AL. exact AL. }
-  (* ids of the nonterminal edges of r2 are those of r1 *)
-  assert (ID2 : forall b, In b (nt_edges (r_rhs r2)) -> exists a, In a (nt_edges (r_rhs r1)) /\ e_id a = e_id b).
-  { intros b Hb. assert (X : In (sigf b) (nt_sig (r_rhs r1))).
-    { apply Cs. rewrite nt_sig_sigf. apply in_map. exact Hb. }
-    rewrite nt_sig_sigf in X. apply in_map_iff in X. destruct X as [a [E Ha]].
-    exists a. split; [exact Ha|]. unfold sigf in E. injection E; auto. }
-  assert (ID1 : forall a, In a (nt_edges (r_rhs r1)) -> exists b, In b (nt_edges (r_rhs r2)) /\ e_id b = e_id a).
-  { intros a Ha. assert (X : In (sigf a) (nt_sig (r_rhs r2))).
-    { apply Cs. rewrite nt_sig_sigf. apply in_map. exact Ha. }
-    rewrite nt_sig_sigf in X. apply in_map_iff in X. destruct X as [b [E Hb]].
-    exists b. split; [exact Hb|]. unfold sigf in E. injection E; auto. }
+  destruct (shared_pairs r1 r2 W1 W2 C) as [LEN _].
   unfold conjoin_rules_model. rewrite GL.
   (* nodes *)
   destruct (add_nodes_total (g_nodes (r_rhs r1)) empty_graph W1n) as [g0 H0]; [intros; reflexivity|].
   rewrite H0. simpl. apply add_nodes_ok in H0. unfold empty_graph in H0. simpl in H0.
   destruct H0 as [A0 [B0 C0]].
   (* ext *)
-  rewrite set_ext_present; [|rewrite A0; intros n Hn; apply P; apply W1x; exact Hn]. simpl.
-  (* sorting *)
-  assert (M1 : mixed_ids (nt_edges (r_rhs r1)) = false).
-  { unfold mixed_ids. apply andb_false_iff. left. apply existsb_false_forall. exact NI. }
-  assert (M2 : mixed_ids (nt_edges (r_rhs r2)) = false).
-  { unfold mixed_ids. apply andb_false_iff. left. apply existsb_false_forall.
-    intros b Hb. destruct (ID2 b Hb) as [a [Ha E]]. rewrite <- E. apply NI. exact Ha. }
-  unfold sorted_by_id. rewrite M1, M2. simpl.
+  rewrite set_ext_present; [|rewrite A0; exact W1n|rewrite A0; exact W1x]. simpl.
   fold (nt_sorted r1). fold (nt_sorted r2).
   (* nonterminal edges *)
   set (g1 := {| g_nodes := g_nodes g0; g_edges := g_edges g0; g_ext := g_ext (r_rhs r1) |}).
-  destruct (conj_nt_edges_total m (combine (nt_sorted r1) (nt_sorted r2)) g1) as [g2 H2].
-  { intros [a b] n Hp Hn. simpl in *. rewrite A0. apply P. apply in_combine_l in Hp.
+  assert (P1 : forall (p : edge * edge) n, In p (combine (nt_sorted r1) (nt_sorted r2)) ->
+                 In n (e_att (fst p)) -> In n (g_nodes g1)).
+  { intros [a b] n Hp Hn. simpl in *. rewrite A0. apply in_combine_l in Hp.
     apply (proj1 (sort_edges_in _ _)) in Hp. apply nt_edges_in in Hp. apply (W1t a n); tauto. }
+  destruct (conj_nt_edges_total m base (combine (nt_sorted r1) (nt_sorted r2)) g1) as [g2 H2].
+  { simpl. rewrite A0. exact W1n. }
+  { exact P1. }
   { intros [a b] Hp. simpl. pose proof (in_combine_l _ _ _ _ Hp) as Ha. pose proof (in_combine_r _ _ _ _ Hp) as Hb.
     apply (proj1 (sort_edges_in _ _)) in Ha. apply (proj1 (sort_edges_in _ _)) in Hb.
     destruct (ML a b Ha Hb) as [l [G Ty]]. exists l. split; [exact G|]. rewrite Ty.
     apply W1y. apply nt_edges_in in Ha. tauto. }
-  { intros [a b] Hp. simpl. apply NI. apply in_combine_l in Hp.
-    apply (proj1 (sort_edges_in _ _)) in Hp. exact Hp. }
   { replace (map (fun p : edge * edge => e_id (fst p)) (combine (nt_sorted r1) (nt_sorted r2)))
       with (map e_id (nt_sorted r1)).
     - unfold nt_sorted. apply sort_edges_nodup. exact N1.
     - destruct (map_fst_combine _ _ LEN) as [E _]. rewrite <- E at 1. rewrite map_map. reflexivity. }
-  { intros p Hp. simpl. rewrite B0. reflexivity. }
+  { intros p Hp _. simpl. rewrite B0. reflexivity. }
   rewrite H2. simpl.
-  apply conj_nt_edges_ok in H2.
-  2:{ intros [a b] n Hp Hn. simpl in *. rewrite A0. apply P. apply in_combine_l in Hp.
-      apply (proj1 (sort_edges_in _ _)) in Hp. apply nt_edges_in in Hp. apply (W1t a n); tauto. }
-  destruct H2 as [es [F [G [A2 [B2 [C2 D2]]]]]]. simpl in A2, B2, C2. rewrite B0 in B2. simpl in B2.
-  (* ids of the new edges are ids of nonterminal edges of r1 *)
-  assert (IDS : forall e, In e es -> exists a, In a (nt_edges (r_rhs r1)) /\ e_id a = e_id e).
-  { intros e He. destruct (Forall2_in_r _ _ _ _ F He) as [[a b] [Hp Pp]].
-    unfold paired_edge in Pp. simpl in Pp. destruct (nt_get m (e_lab a, e_lab b)); [|discriminate].
-    injection Pp as <-. simpl. exists a. split; [|reflexivity].
-    apply in_combine_l in Hp. apply (proj1 (sort_edges_in _ _)) in Hp. exact Hp. }
-  (* terminal edges *)
-  destruct (add_edges_total (t_edges (r_rhs r1) ++ t_edges (r_rhs r2)) g2) as [g3 H3].
-  { intros e n He Hn. rewrite A2, A0. apply P. apply in_app_iff in He.
-    destruct He as [He|He]; apply t_edges_in in He; destruct He as [He _].
-    - apply (W1t e n); assumption.
-    - apply (proj2 (Cn n)). apply (W2t e n); assumption. }
-  { rewrite map_app. apply NoDup_app_intro.
-    - apply NoDup_map_filter. exact W1e.
-    - apply NoDup_map_filter. exact W2e.
-    - intros i H1 H2. apply in_map_iff in H1. destruct H1 as [a [<- Ha]].
-      apply in_map_iff in H2. destruct H2 as [b [E Hb]].
-      unfold shares_terminal_id in ST. rewrite existsb_false_forall in ST.
-      specialize (ST a Ha). rewrite existsb_false_forall in ST. specialize (ST b Hb).
-      apply Nat.eqb_neq in ST. congruence. }
+  apply conj_nt_edges_ok in H2; [|simpl; rewrite A0; exact W1n|exact P1].
+  destruct H2 as [es [F [G [A2 [B2 [C2 D2]]]]]]. simpl in A2, B2, C2, F. rewrite B0 in B2. simpl in B2.
+  rewrite B0 in F.
+  (* terminal edges of rule 1 *)
+  destruct (add_edges_total (t_edges (r_rhs r1)) g2) as [g3 H3].
+  { rewrite A2, A0. exact W1n. }
+  { intros e n He Hn. rewrite A2, A0. apply t_edges_in in He. destruct He as [He _]. apply (W1t e n); assumption. }
+  { apply NoDup_map_filter. exact W1e. }
   { intros e He. rewrite B2. apply heid_false. intros Hin. apply in_map_iff in Hin.
-    destruct Hin as [e' [E He']]. destruct (IDS e' He') as [a [Ha Ea]]. apply in_app_iff in He.
-    destruct He as [He|He].
-    - apply t_edges_in in He. apply nt_edges_in in Ha.
+    destruct Hin as [e' [E He']].
+    destruct (built_ids_base _ _ _ _ _ F e' He') as [[a b] [Hp [I1 I2]]]. simpl in I1, I2.
+    destruct (is_int_id (e_id a)) eqn:I.
+    - specialize (I1 eq_refl). specialize (BD e He). lia.
+    - specialize (I2 eq_refl). apply in_combine_l in Hp. apply (proj1 (sort_edges_in _ _)) in Hp.
+      apply t_edges_in in He. apply nt_edges_in in Hp.
       apply (edge_ids_differ (g_edges (r_rhs r1)) a e W1e); try tauto; [|congruence].
-      destruct Ha as [_ Ha]. destruct He as [_ He]. rewrite Ha, He. discriminate.
-    - destruct (ID1 a Ha) as [b [Hb Eb]]. apply t_edges_in in He. apply nt_edges_in in Hb.
-      apply (edge_ids_differ (g_edges (r_rhs r2)) b e W2e); try tauto; [|congruence].
-      destruct Hb as [_ Hb]. destruct He as [_ He]. rewrite Hb, He. discriminate. }
-  rewrite H3. simpl. apply add_edges_ok in H3.
-  2:{ intros e n He Hn. rewrite A2, A0. apply P. apply in_app_iff in He.
-      destruct He as [He|He]; apply t_edges_in in He; destruct He as [He _].
-      - apply (W1t e n); assumption.
-      - apply (proj2 (Cn n)). apply (W2t e n); assumption. }
+      destruct Hp as [_ Hp]. destruct He as [_ He]. rewrite Hp, He. discriminate. }
+  rewrite H3. simpl. apply add_edges_ok in H3; [|rewrite A2, A0; exact W1n|].
+  2:{ intros e n He Hn. rewrite A2, A0. apply t_edges_in in He. destruct He as [He _]. apply (W1t e n); assumption. }
   destruct H3 as [A3 [B3 [C3 D3]]].
-  unfold mk_rule. rewrite TL. rewrite C3, C2, TyL, W1b.
+  (* terminal edges of rule 2 *)
+  destruct (add_t2_edges_total base (t_edges (r_rhs r2)) g3) as [g4 H4].
+  { rewrite A3, A2, A0. exact W1n. }
+  { intros e n He Hn. rewrite A3, A2, A0. apply t_edges_in in He. destruct He as [He _].
+    apply (proj2 (Cn n)). apply (W2t e n); assumption. }
+  { intros e He. apply t_edges_in in He. apply W2y. tauto. }
+  rewrite H4. simpl. apply add_t2_edges_ok in H4; [|rewrite A3, A2, A0; exact W1n|].
+  2:{ intros e n He Hn. rewrite A3, A2, A0. apply t_edges_in in He. destruct He as [He _].
+      apply (proj2 (Cn n)). apply (W2t e n); assumption. }
+  destruct H4 as [ts2' [F2 [A4 [B4 [C4 D4]]]]].
+  unfold mk_rule. rewrite TL. rewrite C4, C3, C2, TyL, W1b.
   rewrite (proj2 (nats_eqb_eq _ _) eq_refl). simpl. eauto.
 Qed.
 
 (** * [conjoin_hrgs] returns *)
+Lemma id_bound_ge : forall h1 h2 r e,
+  In r (all_rules h1) -> In e (g_edges (r_rhs r)) -> e_id e <= id_bound h1 h2.
+Proof.
+  intros h1 h2 r e Hr He. unfold id_bound, hrg_max_id.
+  assert (A : e_id e <= graph_max_id (r_rhs r)).
+  { unfold graph_max_id. apply fold_max_ge. apply in_map. exact He. }
+  assert (B : graph_max_id (r_rhs r) <= fold_right Nat.max 0 (map (fun r => graph_max_id (r_rhs r)) (all_rules h1))).
+  { apply fold_max_ge. apply (in_map (fun r => graph_max_id (r_rhs r))). exact Hr. }
+  lia.
+Qed.
+
 Lemma wf_hrg_tables : forall h, wf_hrg_b h = true ->
   NoDup (map el_name (h_elabels h)) /\ el_term (h_start h) = false /\ In (h_start h) (h_elabels h).
 Proof.
@@ -265,7 +290,6 @@ Section Total.
   Hypothesis W1 : wf_hrg_b h1 = true.
   Hypothesis W2 : wf_hrg_b h2 = true.
   Hypothesis NC : has_tt_conflict h1 h2 = false.
-  Hypothesis IDS : ids_ok h1 h2 = true.
   Hypothesis HM : ntmap_spec h1 h2 m.
 
   (** the labels that can enter the label table of the conjunction *)
@@ -326,7 +350,7 @@ Section Total.
   Qed.
 
   Lemma conj_step_total : forall st p, In p (cpairs h1 h2) -> Forall good (s_el st) ->
-    exists st', conj_step m st p = Ok st' /\ Forall good (s_el st').
+    exists st', conj_step m (id_bound h1 h2) st p = Ok st' /\ Forall good (s_el st').
   Proof.
     intros st [[i j] [r1 r2]] Hp Ft. pose proof Hp as Hp'. apply cpairs_in in Hp'.
     destruct Hp' as [H1 [H2 C]].
@@ -334,37 +358,30 @@ Section Total.
     destruct (wf_hrg_rules h1 r1 W1 I1) as [Wr1 [L1 E1]].
     destruct (wf_hrg_rules h2 r2 W2 I2) as [Wr2 [L2 E2]].
     pose proof HM as [Tot [Val _]].
-    pose proof IDS as IDS'. unfold ids_ok in IDS'. apply andb_true_iff in IDS'. destruct IDS' as [D1 D2].
-    apply negb_true_iff in D1. apply negb_true_iff in D2.
-    unfold defect_shared_terminal_id in D1. rewrite existsb_false_forall in D1. specialize (D1 _ Hp).
-    unfold defect_int_nt_id in D2. rewrite existsb_false_forall in D2. specialize (D2 _ Hp).
-    simpl in D1, D2. rewrite existsb_false_forall in D2.
-    destruct (conjoin_rules_total r1 r2 m Wr1 Wr2 C) as [r HR].
+    destruct (conjoin_rules_total (id_bound h1 h2) r1 r2 m Wr1 Wr2 C) as [r HR].
     { destruct (Tot _ _ L1 L2) as [L G]. exists L. destruct (Val _ _ G) as [T [Ty _]]. auto. }
     { intros e1 e2 He1 He2. destruct (Tot _ _ (E1 e1 He1) (E2 e2 He2)) as [l G]. exists l.
       destruct (Val _ _ G) as [_ [Ty _]]. auto. }
-    { exact D2. }
-    { exact D1. }
+    { intros e He. apply t_edges_in in He. apply (id_bound_ge h1 h2 r1 e I1). tauto. }
     unfold conj_step. simpl. rewrite HR. simpl.
-    destruct (conjoin_rules_exact _ _ _ _ Wr1 Wr2 C HR) as [es [F [_ [GL [_ [EE _]]]]]].
+    destruct (conjoin_rules_exact _ _ _ _ _ Wr1 Wr2 C HR) as [es [ts2' [F [_ [F2 [GL [_ [EE _]]]]]]]].
     unfold add_rule_model. simpl.
     destruct (add_elabel_good (s_el st) (r_lhs r) Ft) as [t1 [A1 F1]]; [left; eauto|].
     rewrite A1. simpl.
-    destruct (add_elabels_good (map e_lab (g_edges (r_rhs r))) t1 F1) as [t2 [A2 F2]].
+    destruct (add_elabels_good (map e_lab (g_edges (r_rhs r))) t1 F1) as [t2 [A2 F2']].
     { rewrite EE. apply Forall_forall. intros l Hl. apply in_map_iff in Hl. destruct Hl as [e [<- He]].
       rewrite !in_app_iff in He. destruct He as [He|[He|He]].
-      - destruct (Forall2_in_r _ _ _ _ F He) as [[a b] [_ Pp]]. unfold paired_edge in Pp. simpl in Pp.
-        destruct (nt_get m (e_lab a, e_lab b)) as [l|] eqn:G; [|discriminate]. injection Pp as <-.
-        left. simpl. eauto.
+      - destruct (Forall2_in_r _ _ _ _ F He) as [p [_ [G _]]]. left. eauto.
       - apply t_edges_in in He. destruct He as [He Te]. right. left.
         split; [apply (wf_hrg_edge_labels h1 r1 e W1 I1 He) | exact Te].
-      - apply t_edges_in in He. destruct He as [He Te]. right. right.
-        split; [apply (wf_hrg_edge_labels h2 r2 e W2 I2 He) | exact Te]. }
-    rewrite A2. simpl. eexists. split; [reflexivity|]. simpl. exact F2.
+      - destruct (Forall2_in_r _ _ _ _ F2 He) as [x [Hx [Pl _]]]. rewrite Pl.
+        apply t_edges_in in Hx. destruct Hx as [Hx Tx]. right. right.
+        split; [apply (wf_hrg_edge_labels h2 r2 x W2 I2 Hx) | exact Tx]. }
+    rewrite A2. simpl. eexists. split; [reflexivity|]. simpl. exact F2'.
   Qed.
 
   Lemma conj_fold_total : forall ps st, (forall p, In p ps -> In p (cpairs h1 h2)) ->
-    Forall good (s_el st) -> exists st', mfold (conj_step m) ps st = Ok st'.
+    Forall good (s_el st) -> exists st', mfold (conj_step m (id_bound h1 h2)) ps st = Ok st'.
   Proof.
     induction ps as [|p ps IH]; simpl; intros st Hps Ft; [eauto|].
     destruct (conj_step_total st p (Hps p (or_introl eq_refl)) Ft) as [st1 [E F1]]. rewrite E.
@@ -372,13 +389,13 @@ Section Total.
   Qed.
 End Total.
 
-(** the positive theorem: without a terminal conflict and outside the two defect classes,
-    [conjoin_hrgs] returns a grammar *)
+(** the positive theorem: [conjoin_hrgs] returns a grammar on every pair of well-formed grammars
+    without a terminal/terminal label conflict *)
 Theorem conjoin_hrgs_total : forall h1 h2,
-  wf_hrg_b h1 = true -> wf_hrg_b h2 = true -> has_tt_conflict h1 h2 = false -> ids_ok h1 h2 = true ->
+  wf_hrg_b h1 = true -> wf_hrg_b h2 = true -> has_tt_conflict h1 h2 = false ->
   exists g, conjoin_hrgs_model h1 h2 = Ok g.
 Proof.
-  intros h1 h2 W1 W2 NC IDS. unfold conjoin_hrgs_model, conjoin_hrgs_tagged.
+  intros h1 h2 W1 W2 NC. unfold conjoin_hrgs_model, conjoin_hrgs_tagged.
   pose proof (ncol_nil h1 h2) as N.
   destruct (check_namespace_collisions_model h1 h2) as [n_col e_col] eqn:CN. simpl in N. subst n_col.
   assert (T : existsb tt_conflict e_col = false).
@@ -400,7 +417,7 @@ Proof.
   { unfold nonterminals. apply filter_In. unfold is_nt. rewrite T1. auto. }
   { unfold nonterminals. apply filter_In. unfold is_nt. rewrite T2. auto. }
   rewrite G. destruct (Val _ _ G) as [Ts _]. rewrite Ts.
-  destruct (conj_fold_total h1 h2 m W1 W2 NC IDS SP (cpairs h1 h2)
+  destruct (conj_fold_total h1 h2 m W1 W2 NC SP (cpairs h1 h2)
               {| s_nl := []; s_el := [s]; s_rules := [] |}) as [st E].
   { auto. }
   { simpl. constructor; [left; eauto | constructor]. }
